@@ -747,7 +747,9 @@ func checkEntry(ctx *reporter, c *POCase, desc string, e *poEntry, node *ast.Msg
 // plural-free messages are rendered with the en catalogues only.
 func skipRender(ctx0 *core.Ctx, o *occ, cat *catalogue) bool {
 	if o.c.isPlural() {
-		return false
+		// the large family of plurals with two-part bodies (tried on the short
+		// list of counts) is not rendered with the partial catalogues
+		return ctx0.Thorough() && len(o.c.Exp) < 10 && cat.strategy == "partial"
 	}
 	if cat.alias {
 		return true
